@@ -24,7 +24,7 @@ from pyvc.ctx import Ctx
 
 class TokeniserLemma:
     qualname = 'fsic.parser.term_re'
-    props = ('C01', 'C03')
+    props = ('C01', 'C03', 'C14')
 
     def scenarios(self):
         return ['lemma']
